@@ -306,6 +306,13 @@ func oracleC02(w *World, rec *BlockRecord, t *TxInfo) {
 		}
 	}
 	r.Probe("c02_refund_earning_tx_compared", ref.Refund > 0)
+	if ref.Refund == 0 {
+		// nothing refunded in the reference execution: the receipt's gas used is the gas consumed, which covers at least
+		// the intrinsic gas (21000 / 53000 + call data + 2400 per access-list entry + 1900 per storage key, repeats included)
+		if intr := IntrinsicGas(tx.Data(), tx.AccessList(), tx.To() == nil); t.Rc.GasUsed < intr {
+			r.Violate("C05", "gas_used_below_intrinsic", nil, "gas used %d is below the intrinsic gas %d although nothing was refunded", t.Rc.GasUsed, intr)
+		}
+	}
 	if resp != nil && !bytes.Equal(resp.Ret, ref.Res.ReturnData) {
 		differs(disc("return_data"), "return data %x, go-ethereum returns %x", clipB(resp.Ret), clipB(ref.Res.ReturnData))
 	}
